@@ -251,6 +251,7 @@ func gen(r *Rand) Input {
 	}
 	addTiming(r.Fork(), &in, nrelays)
 	addActivation(r.Fork(), &in)
+	addAddressing(r.Fork(), &in)
 	return in
 }
 
@@ -595,5 +596,22 @@ func genReal(r *Rand) Input {
 	}
 	addTiming(r.Fork(), &in, nrelays)
 	addActivation(r.Fork(), &in)
+	addAddressing(r.Fork(), &in)
 	return in
+}
+
+// ---------------------------------------------------------------------------------------------
+// Relays on one host.  A relay is its ADDRESS (what the configuration says), not its host: relays
+// reached through one proxy differ in path, user info (the relay's public key), scheme or port only.
+// A third of the histories write their relays' addresses that way (drawn from a fork at the very
+// end, so the rest of the stream is as before); nothing else of the history changes.
+
+var addressings = []string{"path", "path", "root+path", "root+path", "userinfo", "scheme", "port"}
+
+func addAddressing(r *Rand, in *Input) {
+	if !r.Chance(1, 3) {
+		return
+	}
+	in.Addressing = addressings[r.Intn(len(addressings))]
+	in.Tags = append(in.Tags, "relays-on-one-host")
 }
